@@ -348,7 +348,20 @@ class Tables:
         known = self.f.known_fns_or_aliases() if hasattr(self.f, 'known_fns_or_aliases') else set()
         helpers = [g for g in self.f.family(base) if g.id != base.id and g.kind != 'Closure' and g.hir and g.qname not in known
                    and g.mir and any('InferenceSet' in g.mir['locals'][i]['ty'] for i in range(1, g.mir['argc'] + 1))]
-        for fn in [base] + helpers:
+        # a helper that is nothing but one push - `fn equate(set, node, expected) { set.push(get_tag(node), expected, node.span()) }` -
+        # is read at its call sites: (index of the node parameter, index of the tag parameter)
+        pushlike = {}
+        for h in helpers:
+            pushes = [e for e, _ in hir_walk(h.hir['body']) if e['k'] == 'mcall' and e['m'].endswith('InferenceSet::push')]
+            params = [p_.get('hid') if p_['k'] == 'bind' else None for p_ in h.hir['params']]
+            if len(pushes) == 1 and len(pushes[0]['args']) >= 2:
+                a0, b0 = pushes[0]['args'][0], pushes[0]['args'][1]
+                while a0['k'] == 'mcall' and a0['name'] == 'into':
+                    a0 = a0['recv']
+                if a0['k'] == 'call' and P.name_is(callee_def(a0), 'get_tag') and a0['args'] and a0['args'][0]['k'] == 'path' and a0['args'][0]['p'].get('hid') in params \
+                        and b0['k'] == 'path' and b0['p'].get('hid') in params:
+                    pushlike[h.id] = (params.index(a0['args'][0]['p']['hid']), params.index(b0['p']['hid']))
+        for fn in [base] + [h for h in helpers if h.id not in pushlike]:
             ctx = Pos(fn)
 
             def node_of(x):
@@ -365,9 +378,17 @@ class Tables:
                 return None
 
             for e, anc in hir_walk(fn.hir['body']):
-                if e['k'] == 'mcall' and e['m'].endswith('InferenceSet::push'):
-                    a, b = e['args'][0], e['args'][1]
-                    na = node_of(a)
+                via_helper = e['k'] == 'call' and callee_id(e) in pushlike
+                if (e['k'] == 'mcall' and e['m'].endswith('InferenceSet::push')) or via_helper:
+                    if via_helper:
+                        i_, j_ = pushlike[callee_id(e)]
+                        a, b = e['args'][i_], e['args'][j_]
+                        na = a
+                        while na['k'] in ('addr', 'unary'):
+                            na = na['e']
+                    else:
+                        a, b = e['args'][0], e['args'][1]
+                        na = node_of(a)
                     org = ctx.origin(na) if na is not None else None
                     g = self.gk(ctx.guards(anc))
                     nb = node_of(b)
